@@ -28,7 +28,8 @@ class C03(Property):
             'inactive parts, species in several reactions, duplicated reactions, substances in no reaction), rate constants and '
             'concentrations as int / Fraction / sympy.Rational / dyadic float (exact), substance_keys None / system order / permuted / '
             'with repeats / subsets, CSTR feed over any subset of substances, a missing-variable stream (KeyError), permuted reaction '
-            'lists, short conc / rates vectors and unknown keys for the array path; HISTORIES: 3-15 calls on one ReactionSystem object (rates / array path / '
+            'lists, short conc / rates vectors and unknown keys for the array path; the backend= argument (math, numpy, sympy, chempy.units.Backend()) '
+            'with every value type incl. Python ints beyond 2**63; get_odesys(rsys, cstr=True) on Species of any phase (default feed map, rates, rhs); HISTORIES: 3-15 calls on one ReactionSystem object (rates / array path / '
             'stoichiometry matrices / Reaction.rate) interleaved with set_param, replace_rxn, append (+= and list.append), delete, permute_rxns, '
             'sort_substances_inplace, each observation compared with the stateless model on the current state. A case is non-trivial when it is a distinct JSON '
             'value and has at least one reaction.')
@@ -50,6 +51,10 @@ class C03(Property):
         'Reaction._init_stoich (sorting of plain dicts) and Reaction.keys() order (a Python set): not modelled, compared as mappings',
         'results depend only on the current state of the objects (no stale caches after param re-assignment, in-place replacement, '
         'permutation, sort_substances_inplace): the model is a pure function, the real code is tied by history correspondence / oracle only',
+        'the backend= argument (math / numpy / sympy / chempy.units.Backend()) does not change the value, also for Python ints beyond 2**63: '
+        'correspondence and oracle only (the model has no backend)',
+        'get_odesys(rsys, cstr=True) really builds the default feed map over all substances and hands it to rates(): theorem '
+        'default_cstr_feeds_every_substance is about the modelled defaultCstr; the tie is the odesys_cstr correspondence (feed map, rates, rhs)',
         'array-valued (batched, mutable) concentrations: per-element equality, unmodified inputs and alias-free results are oracle only',
         'error agreement of the array path (ValueError for an unknown reactant, IndexError for a short conc/rates): modelled, '
         'correspondence only',
@@ -76,12 +81,15 @@ class C03(Property):
             if i % 9 == 4:
                 cases.append(self._history(rng, tier))
                 continue
+            if i % 25 == 7:
+                cases.append(self._odesys_cstr(rng, tier))
+                continue
             if r < 0.18 and rxns:
                 c = {'op': 'rxn_rate', 'rxn': rng.choice(rxns), 'vars': sysd['vars'], 'num': num,
-                     'keys': self._keys(rng, subst, allow_none=False)}
+                     'keys': self._keys(rng, subst, allow_none=False), 'backend': self._backend(rng)}
                 self._maybe_drop_var(rng, c)
             elif r < 0.62:
-                c = dict(sysd, op='sys_rates', keys=self._keys(rng, subst, allow_none=True), cstr=None)
+                c = dict(sysd, op='sys_rates', keys=self._keys(rng, subst, allow_none=True), cstr=None, backend=self._backend(rng))
                 if rng.random() < 0.4:
                     fed = rng.sample(subst, rng.randint(0, len(subst)))
                     c['cstr'] = {'fr': 'feedratio', 'fc': [[s, 'fc_' + s] for s in fed]}
@@ -89,6 +97,8 @@ class C03(Property):
                 perm = list(range(len(rxns)))
                 rng.shuffle(perm)
                 c['perm'] = perm
+                if num == 'bigint' and rng.random() < 0.5:
+                    c['backend'] = 'numpy'
                 self._maybe_drop_var(rng, c)
             elif r < 0.8:
                 c = dict(sysd, op='array_path', keys=list(subst))
@@ -119,6 +129,32 @@ class C03(Property):
             cases.append(c)
         return cases
 
+    @staticmethod
+    def _backend(rng):
+        return rng.choice([None, None, 'math', 'numpy', 'sympy', 'units'])
+
+    def _odesys_cstr(self, rng, tier):
+        """stirred-tank conditions requested through get_odesys(rsys, cstr=True) (the DEFAULT feed map), on systems whose substances
+        are Species of any phase"""
+        sysd = kg.rand_system(rng, tier, num=rng.choice(['int', 'Rational']), smax=5, rmax=3)
+        subst = sysd['subst']
+        if not sysd['rxns']:
+            sysd['rxns'] = [kg.rand_reaction(rng, subst, sysd['num'], 3)]
+        for x in sysd['rxns']:
+            x['ordered'] = True
+        vars_ = sysd['vars'] + [['feedratio', kg.rand_rat(rng, 'Fraction')]] + [['fc_' + k, kg.rand_rat(rng, 'Fraction')] for k in subst]
+        return {'op': 'odesys_cstr', 'subst': subst, 'rxns': sysd['rxns'], 'vars': vars_, 'num': 'Rational',
+                'phases': [rng.choice([0, 0, 1, 2]) for _ in subst]}
+
+    def _odesys_cstr_run(self, c):
+        import sympy
+        from chempy import ReactionSystem, Species
+        from chempy.kinetics.ode import get_odesys
+        subs = OrderedDict((k, Species(k, phase_idx=p)) for k, p in zip(c['subst'], c['phases']))
+        rsys = ReactionSystem([kg.mk_reaction(x, 'Rational') for x in c['rxns']], subs, checks=())
+        odesys, extra = get_odesys(rsys, cstr=True)
+        return rsys, odesys, extra
+
     # ---- histories: several calls on ONE ReactionSystem object with mutations in between ------------------------
     def _history(self, rng, tier):
         sysd = kg.rand_system(rng, tier, smax=6, rmax=4)
@@ -137,7 +173,7 @@ class C03(Property):
                 cstr = None
                 if rng.random() < 0.3:
                     cstr = {'fr': 'feedratio', 'fc': [[k, 'fc_' + k] for k in rng.sample(subst, rng.randint(0, len(subst)))]}
-                return {'do': 'obs', 'op': 'sys_rates', 'keys': keys, 'cstr': cstr}
+                return {'do': 'obs', 'op': 'sys_rates', 'keys': keys, 'cstr': cstr, 'backend': self._backend(rng)}
             if o < 0.75:
                 return {'do': 'obs', 'op': 'array_path'}
             if o < 0.9:
@@ -219,7 +255,7 @@ class C03(Property):
         keys = order if keys == 'ORDER' else keys
         base = {'subst': order, 'rxns': [dict(r) for r in state['rxns']], 'vars': c['vars'], 'num': c['num']}
         if st['op'] == 'sys_rates':
-            return dict(base, op='sys_rates', keys=keys, cstr=st['cstr'], perm=list(range(len(state['rxns']))))
+            return dict(base, op='sys_rates', keys=keys, cstr=st['cstr'], perm=list(range(len(state['rxns']))), backend=st.get('backend'))
         if st['op'] == 'array_path':
             vd = dict(map(tuple, ((k, json.dumps(v)) for k, v in c['vars'])))
             return dict(base, op='array_path', keys=order, conc=[json.loads(vd[k]) for k in order])
@@ -267,6 +303,9 @@ class C03(Property):
                 else:
                     self._apply_pure(state, st)
             return {'op': 'history', 'steps': msteps, 'orig': c}
+        if c['op'] == 'odesys_cstr':
+            return dict(c, op='sys_rates_default_cstr', observed='odesys_cstr',
+                        rxns=[kg.readback(kg.mk_reaction(s, num), s) for s in c['rxns']])
         m = dict(c)
         if 'rxn' in c:
             m['rxn'] = kg.readback(kg.mk_reaction(c['rxn'], num), c['rxn'])
@@ -292,12 +331,12 @@ class C03(Property):
         num = c.get('num', 'Fraction')
         try:
             if op == 'rxn_rate':
-                return _dict_line(rsys.rxns[c['i']].rate(self._vars(c), substance_keys=c['keys']))
+                return _dict_line(rsys.rxns[c['i']].rate(self._vars(c), kg.get_backend(c.get('backend')), substance_keys=c['keys']))
             if op == 'sys_rates':
                 cstr = None
                 if c['cstr'] is not None:
                     cstr = (c['cstr']['fr'], OrderedDict(map(tuple, c['cstr']['fc'])))
-                return _dict_line(rsys.rates(self._vars(c), substance_keys=c['keys'], cstr_fr_fc=cstr))
+                return _dict_line(rsys.rates(self._vars(c), kg.get_backend(c.get('backend')), substance_keys=c['keys'], cstr_fr_fc=cstr))
             if op == 'array_path':
                 conc = [kg.to_num(v, num) for v in c['conc']]
                 rates = list(law_of_mass_action_rates(conc, rsys))
@@ -337,7 +376,13 @@ class C03(Property):
                 return ' | '.join(outs)
             if op == 'rxn_rate':
                 rxn = kg.mk_reaction(c['rxn'], num)
-                return _dict_line(rxn.rate(self._vars(c), substance_keys=c['keys']))
+                return _dict_line(rxn.rate(self._vars(c), kg.get_backend(c.get('backend')), substance_keys=c['keys']))
+            if op == 'sys_rates_default_cstr':
+                rsys, odesys, extra = self._odesys_cstr_run(c)
+                fr, fc = extra['cstr_fr_fc']
+                vars_ = {k: kg.to_num(v, 'Fraction') for k, v in c['vars']}
+                return '%s;%s;%s' % (fr, json.dumps([[a, b] for a, b in fc.items()], separators=(',', ':')),
+                                     _dict_line(rsys.rates(vars_, substance_keys=list(rsys.substances), cstr_fr_fc=extra['cstr_fr_fc'])))
             if op == 'coeff_mtx':
                 return _mtx_line(get_coeff_mtx(c['substances'], [(OrderedDict(map(tuple, a)), OrderedDict(map(tuple, b)))
                                                                  for a, b in c['stoichs']]).tolist())
@@ -370,6 +415,36 @@ class C03(Property):
             return self._oracle_symbolic(c)
         if op == 'history':
             return self._oracle_history(c)
+        if op == 'odesys_cstr':
+            return self._oracle_odesys_cstr(c)
+        return None
+
+    def _oracle_odesys_cstr(self, c):
+        """cstr=True: EVERY substance gets F*(c_feed - c); checked on extra['cstr_fr_fc'], on rates() with it and on odesys.exprs"""
+        import sympy
+        try:
+            rsys, odesys, extra = self._odesys_cstr_run(c)
+        except Exception as e:
+            return 'get_odesys(rsys, cstr=True) raised %s: %s' % (exc_name(e), str(e)[:120])
+        subst = c['subst']
+        conc = {k: kg.frac(v) for k, v in c['vars']}
+        want = {k: sum(kg.net_of(x, k) * kg.rate_of(x, conc) for x in c['rxns']) + conc['feedratio'] * (conc['fc_' + k] - conc[k])
+                for k in subst}
+        got = rsys.rates({k: v for k, v in conc.items()}, cstr_fr_fc=extra['cstr_fr_fc'])
+        gotf = {k: kg.to_frac(v) for k, v in got.items()}
+        if gotf != want:
+            k = next(k for k in subst if gotf.get(k) != want[k])
+            return ('get_odesys(cstr=True): rates with the returned feed map give d[%s]/dt = %s (phase_idx %d), reactions + F*(c_feed - c) = %s'
+                    % (k, gotf.get(k), c['phases'][subst.index(k)], want[k]))
+        if list(odesys.names) != subst:
+            return 'odesys.names differ from the substance keys'
+        sub = {odesys.dep[i]: sympy.Rational(conc[k].numerator, conc[k].denominator) for i, k in enumerate(subst)}
+        for pn, ps in zip(odesys.param_names, odesys.params):
+            sub[ps] = sympy.Rational(conc[pn].numerator, conc[pn].denominator)
+        for k, e in zip(subst, odesys.exprs):
+            v = kg.to_frac(sympy.sympify(e).subs(sub))
+            if v != want[k]:
+                return 'get_odesys(cstr=True): rhs of %s evaluates to %s, reactions + F*(c_feed - c) = %s' % (k, v, want[k])
         return None
 
     @staticmethod
@@ -404,7 +479,7 @@ class C03(Property):
             if st['op'] == 'sys_rates':
                 keys = order if st['keys'] == 'ORDER' else st['keys']
                 cstr = None if st['cstr'] is None else (st['cstr']['fr'], OrderedDict(map(tuple, st['cstr']['fc'])))
-                got = {k: kg.to_frac(v) for k, v in rsys.rates(vars_, substance_keys=keys, cstr_fr_fc=cstr).items()}
+                got = {k: kg.to_frac(v) for k, v in rsys.rates(vars_, kg.get_backend(st.get('backend')), substance_keys=keys, cstr_fr_fc=cstr).items()}
                 want = {}
                 for s in live:
                     rate = kg.rate_of(s, conc)
@@ -447,7 +522,7 @@ class C03(Property):
         rxn = kg.mk_reaction(spec, num)
         missing = self._needed_missing([spec], vars_)
         try:
-            got = rxn.rate(vars_, substance_keys=c['keys'])
+            got = rxn.rate(vars_, kg.get_backend(c.get('backend')), substance_keys=c['keys'])
         except KeyError:
             return None if missing else 'Reaction.rate raised KeyError although every reactant has a concentration'
         if missing:
@@ -473,7 +548,7 @@ class C03(Property):
         missing = self._needed_missing(specs, vars_, c['cstr'])
         rsys = ReactionSystem(rxns, self._subst(c, c['subst']), checks=())
         try:
-            got = rsys.rates(vars_, substance_keys=c['keys'], cstr_fr_fc=cstr)
+            got = rsys.rates(vars_, kg.get_backend(c.get('backend')), substance_keys=c['keys'], cstr_fr_fc=cstr)
         except KeyError:
             return None if missing else 'ReactionSystem.rates raised KeyError although every needed variable is given'
         if missing:
@@ -571,8 +646,10 @@ class C03(Property):
             return 'history:' + '+'.join(sorted({x['do'] for x in c['steps'] if x['do'] != 'obs'}))
         if op == 'sys_rates':
             miss = bool(self._needed_missing(c['rxns'], dict(map(tuple, c['vars'])), c['cstr']))
-            return 'sys_rates:%s:%s%s:nr%s%s' % (c['num'], 'keys=None' if c['keys'] is None else 'keys', ':cstr' if c['cstr'] else '',
+            return 'sys_rates:%s%s:%s%s:nr%s%s' % (c['num'], ':be=' + c['backend'] if c.get('backend') else '', 'keys=None' if c['keys'] is None else 'keys', ':cstr' if c['cstr'] else '',
                                                  min(len(c['rxns']), 4), ':missing-var' if miss else '')
+        if op == 'odesys_cstr':
+            return 'odesys_cstr:' + ('solid/gas' if any(c['phases']) else 'one-phase')
         if op == 'rxn_rate':
             s = c['rxn']
             both = any(k in [p[0] for p in s['prod']] for k, _ in s['reac'])
